@@ -456,3 +456,55 @@ func RuleJS1(c *Ctx) {
 		sc.Undecided("site", "-", "no rejection taken for the JSIGHT keyword under a condition on where the scan is")
 	}
 }
+
+// ---------------------------------------------------------------- IT1
+
+// RuleIT1: an include chain names the line of the INCLUDE. The position recorded with the
+// suspended scanner (second argument of scanner.Stack.Push) is what later diagnostics print
+// as "<file>:<line>" for that level of the chain; it is taken from the INCLUDE keyword's own
+// lexeme (an accessor of a *scanner.Lexeme the function was handed), not from wherever the
+// scanner happens to stand once the directive has been read: with a block comment and a line
+// break between INCLUDE and the file name that is another line.
+func RuleIT1(c *Ctx) {
+	sc := c.Run.Begin("IT1", "the position stored with a suspended scanner (Stack.Push) is an accessor of the INCLUDE keyword's lexeme", 1)
+	defer sc.End()
+	push := c.Func("scanner", "Stack.Push")
+	lex := c.Named("scanner", "Lexeme")
+	if push == nil || lex == nil {
+		sc.Undecided("anchors", "-", "unresolved anchor: scanner.Stack.Push / scanner.Lexeme")
+		return
+	}
+	n := 0
+	for _, cs := range c.callSitesOf(push) {
+		if strings.Contains(c.P.Pos(cs.Call.Pos()), "_test.go") || len(cs.Call.Args) != 2 {
+			continue
+		}
+		n++
+		info := cs.Pk.TypesInfo
+		cf := c.CFG(cs.Pk, cs.Body)
+		key := fmt.Sprintf("%s#%d", c.P.DeclName(cs.Decl), n)
+		at := ast.Unparen(cf.Resolve(cs.Call.Args[1]))
+		ok := false
+		if call, isCall := at.(*ast.CallExpr); isCall && len(call.Args) == 0 {
+			if r := Recv(call); r != nil {
+				if id, isId := ast.Unparen(cf.Resolve(r)).(*ast.Ident); isId {
+					t := info.TypeOf(id)
+					if p, isPtr := t.(*types.Pointer); isPtr {
+						t = p.Elem()
+					}
+					if types.Identical(t, lex) {
+						ok = true
+					}
+				}
+			}
+		}
+		if ok {
+			sc.Holds(key, c.P.Pos(cs.Call.Pos()), "the recorded position is "+types.ExprString(cs.Call.Args[1]))
+		} else {
+			sc.Violation(key, c.P.Pos(cs.Call.Pos()), "the position recorded for this level of the include chain is "+types.ExprString(cs.Call.Args[1])+", not a position of the INCLUDE keyword's lexeme: the chain of a later diagnostic names a line on which there is no INCLUDE")
+		}
+	}
+	if n == 0 {
+		sc.Undecided("sites", "-", "no call of Stack.Push found")
+	}
+}
